@@ -419,6 +419,10 @@ const GO_INVALID: &[&[&str]] = &[
     &["--split-by=((.arr)"],
     // (marker) text output with --headers and no selection at all
     &["--headers", "-o", "text"],
+    // (marker) text output with one of its own options and a JSON-only option
+    &["--null-keyword=NIL", "--style=pretty", "-o", "text"],
+    // a duplicate --set with another definition in between
+    &["--set", "dupa=1", "--set", "dupb=2", "--set", "dupa=3"],
 ];
 
 impl Property for C20 {
@@ -540,6 +544,16 @@ impl Property for C20 {
                 } else {
                     GO_INVALID[rng.below(GO_INVALID.len())]
                 };
+                if bad[0] == "--null-keyword=NIL" {
+                    case.opts.retain(|o| {
+                        !(matches!(o[0].as_str(), "-o" | "--utf8-strings")
+                            || o[0].starts_with("--output-style")
+                            || o[0].starts_with("--style")
+                            || o[0].starts_with("--null-keyword")
+                            || o[0].starts_with("--group-by")
+                            || o[0] == "--merge")
+                    });
+                }
                 if bad[0] == "--headers" {
                     case.opts.retain(|o| {
                         !(matches!(o[0].as_str(), "--select" | "--choose" | "-c" | "-o" | "--headers" | "--utf8-strings")
